@@ -46,24 +46,29 @@ Cookies == { [state |-> st, l |-> None, sp |-> sp] : st \in {"absent", "invalid"
 CookieOK(c) == c.sp \in Spellings[c.state]
 Headers == { <<>> } \cup { <<a>> : a \in HeaderToks } \cup { <<a, b>> : a \in HeaderToks, b \in HeaderToks }
 
-CreateMainOp(enable, custom, cookie, header) ==
-    [op |-> "create_main", enable |-> enable, custom |-> custom, cookie |-> cookie, header |-> header]
+\* hsp: how the Accept-Language header spells the list (the driver owns the text): "tight" a,b  "spaced" a, b
+\*      "q" a;q=0.9, b;q=0.8   "star" a, b, *;q=0.1
+CONSTANT HeaderSpellings
+CreateMainOp(enable, custom, cookie, header, hsp) ==
+    [op |-> "create_main", enable |-> enable, custom |-> custom, cookie |-> cookie, header |-> header, hsp |-> hsp]
 
 InitWith(Enables, Customs, Cks, Hds) ==
-    \E enable \in Enables, custom \in Customs, cookie \in Cks, header \in Hds :
+    \E enable \in Enables, custom \in Customs, cookie \in Cks, header \in Hds, hsp \in HeaderSpellings :
         /\ CookieOK(cookie)
+        /\ (Len(header) < 2 => hsp = CHOOSE x \in HeaderSpellings : TRUE)      \* one spelling is enough for short lists
         /\ ctxs = << [locale |-> MainLocale(enable, cookie, header), parent |-> 0] >>
         /\ views = << [ctx |-> 1, depth |-> 0] >> /\ accs = <<>>
-        /\ hist = << CreateMainOp(enable, custom, cookie, header) >>
+        /\ hist = << CreateMainOp(enable, custom, cookie, header, hsp) >>
 
 \* parent = 0: created where no context is provided
-CreateSub(parent, cookieOn, cookie, initial, header) ==
+CreateSub(parent, cookieOn, cookie, initial, header) == \E hsp \in HeaderSpellings :
     /\ CookieOK(cookie)
+    /\ (Len(header) < 2 => hsp = CHOOSE x \in HeaderSpellings : TRUE)
     /\ Len(ctxs) < MaxCtx /\ Len(views) < MaxViews
     /\ ctxs' = Append(ctxs, [locale |-> SubLocale(cookieOn, cookie, initial, IF parent = 0 THEN None ELSE ctxs[parent].locale, header),
                              parent |-> parent])
     /\ views' = Append(views, [ctx |-> Len(ctxs) + 1, depth |-> 0])
-    /\ hist' = Append(hist, [op |-> "create_sub", parent |-> parent, cookieOn |-> cookieOn, cookie |-> cookie, initial |-> initial, header |-> header])
+    /\ hist' = Append(hist, [op |-> "create_sub", parent |-> parent, cookieOn |-> cookieOn, cookie |-> cookie, initial |-> initial, header |-> header, hsp |-> hsp])
     /\ UNCHANGED accs
 
 SetLocale(v, x, tracked) ==
